@@ -85,6 +85,8 @@ enum Stop {
     Error { code: i32, stmt: Id, sites: Vec<Id> },
     Halt,
     Undecided(String),
+    /// RESUME label after an error inside a subprogram: every active subprogram ends, the module goes on at this pc
+    ResumeAt(usize),
 }
 
 struct FileH {
@@ -780,7 +782,22 @@ impl<'a> Machine<'a> {
                 }
             }
         }
+        if r.is_err() && def.is_static && outer_static_fx.is_none() {
+            // an abandoned activation of a STATIC subprogram: its variables persist all the same (the result does not)
+            let mut keep = frame.clone();
+            if def.is_function {
+                let ty = self.function_type(def);
+                keep.vars.remove(&format!("{}{}", split_suffix(&def.name).0, ty.suffix()));
+            }
+            self.statics.insert(key.clone(), keep);
+        }
         match r {
+            Err(Stop::ResumeAt(_)) if !by_ref.is_empty() => {
+                // an abandoned activation does not write its by-reference arguments back in this implementation
+                // (copy-in / copy-out); the language passes them by address: not judged
+                self.pending_stop = Some(Stop::Undecided("RESUME label out of a subprogram that has by-reference arguments".into()));
+                return Err(RErr::Inexact("__stop__".into()));
+            }
             Err(stop) => {
                 self.pending_stop = Some(stop);
                 return Err(RErr::Inexact("__stop__".into()));
